@@ -267,6 +267,11 @@ pub struct ReplayFile {
     /// (process-wide state): replay = re-execute runs w, w+nw, ... up to `upto` in one fresh process
     #[serde(default)]
     pub slice: Option<SliceReplay>,
+    /// set when the violation reproduced only in some fresh processes (the code under test behaves
+    /// differently from process to process, e.g. depends on addresses): `./check --replay` then
+    /// tries up to this many fresh processes
+    #[serde(default)]
+    pub attempts: u32,
 }
 
 #[derive(Serialize, Deserialize, Clone, Debug)]
@@ -379,6 +384,7 @@ pub fn parent(scn: &dyn Scenario, tier: Tier, seed: u64) -> i32 {
                     shrink_steps: 0,
                     spec: spec.clone(),
                     slice: None,
+            attempts: 0,
                 };
                 if !crashes_in_fresh_process(&exe, &rf, &path) {
                     continue;
@@ -484,6 +490,7 @@ pub fn parent(scn: &dyn Scenario, tier: Tier, seed: u64) -> i32 {
             shrink_steps: f.shrink_steps,
             spec: f.spec.clone(),
             slice: None,
+            attempts: 0,
         };
         std::fs::write(&path, serde_json::to_string_pretty(&rf).unwrap()).expect("write replay");
         let out = Command::new(&exe)
@@ -505,6 +512,25 @@ pub fn parent(scn: &dyn Scenario, tier: Tier, seed: u64) -> i32 {
                 reproduced = true;
             } else {
                 std::fs::write(&path, serde_json::to_string_pretty(&rf).unwrap()).expect("write replay");
+            }
+        }
+        if !reproduced {
+            // Neither the run alone nor its slice: is the code under test itself nondeterministic from
+            // process to process (address-space layout, process id, ...)? Try more fresh processes.
+            let mut hits = 0;
+            const TRIES: u32 = 6;
+            for _ in 0..TRIES {
+                let o = Command::new(&exe).args(["replay", path.to_str().unwrap()]).stdin(Stdio::null()).output().expect("spawn replay");
+                if o.status.code() == Some(1) {
+                    hits += 1;
+                }
+            }
+            if hits > 0 {
+                let mut rf3 = rf.clone();
+                rf3.attempts = 4 * TRIES;
+                rf3.detail = format!("{} [reproduced in {} of {} further fresh processes: the code under test behaves differently from process to process]", rf3.detail, hits, TRIES);
+                std::fs::write(&path, serde_json::to_string_pretty(&rf3).unwrap()).expect("write replay");
+                reproduced = true;
             }
         }
         if !reproduced {
@@ -870,6 +896,7 @@ pub fn parent_c18(scn: &dyn Scenario, tier: Tier, seed: u64, bins: &[(String, St
             shrink_steps: 0,
             spec: spec.clone(),
             slice: None,
+            attempts: 0,
         };
         std::fs::write(&path, serde_json::to_string_pretty(&rf).unwrap()).expect("write replay");
         let per_op = |bin: &str| -> Vec<u64> {
@@ -940,6 +967,7 @@ pub fn parent_c18(scn: &dyn Scenario, tier: Tier, seed: u64, bins: &[(String, St
             shrink_steps: 0,
             spec,
             slice: None,
+            attempts: 0,
         };
         std::fs::write(&path, serde_json::to_string_pretty(&rf).unwrap()).expect("write replay");
         if let Some(text) = known(&kf, id, &rf.class, &rf.key) {
